@@ -49,3 +49,10 @@ META["C19"] = {
     "note": "Table obligations are closed (no free variable): enumeration, not a solver result. Trusted: go/ssa, symgo semantics and reflect model, z3 + cvc5 (bv-as-int) portfolio.",
     "technique": "symbolic execution of go/ssa + SMT (z3, cvc5), differential against Go conversions, unwinding assertions, native replay",
 }
+
+META["C10"] = {
+    "text": "Differential symbolic execution of the real container code (invokeItemExpr, invokeSliceExpr, invokeLenExpr, invokeIncludeExpr, invokeLetItem*, invokeLetMemberExpr, getMapIndex, runDeleteStmt, append through +, element conversion) against a mirror Go value: symbolic indices and slice bounds of every numeric class decide in-range/out-of-range by the solver; in-range operations must touch exactly the addressed element, failures must leave the container unchanged, slicing must share storage, typed containers and struct fields must keep their declared type.",
+    "design_ref": "DESIGN.md §5 C10",
+    "note": "Container sizes <= 3; index values unbounded (symbolic). Trusted: go/ssa, symgo semantics and reflect model (validated on the repo's scripts in every run), z3.",
+    "technique": "symbolic execution of go/ssa + SMT (z3), differential against mirror Go values, native replay",
+}
